@@ -22,6 +22,7 @@ import (
 	"go/ast"
 	"go/parser"
 	"go/token"
+	"os"
 	"path/filepath"
 	"sort"
 	"strconv"
@@ -866,4 +867,45 @@ func (i *Info) Coq() string {
 	}
 	return fmt.Sprintf("(mkG (%d, %d) (%d, %d) [%s] [%s] %d %s %s)", i.Deepest.A, i.Deepest.B, i.Delta.A, i.Delta.B,
 		strings.Join(acc, "; "), strings.Join(gs, "; "), class, stip, ok)
+}
+
+// PackageVars lists the package-level variables of src/vm (non-test, non-verif files) as "file:name": state
+// that every EVM instance of the process shares.  The harness compares the list with the reviewed one
+// (coq/C11/Harness.v known_pkg_vars); a new entry has to be reviewed for mutation from execute functions or
+// interpreter construction before it is added there.
+func PackageVars(repo string) ([]string, error) {
+	dir := filepath.Join(repo, "src/vm")
+	ents, err := os.ReadDir(dir)
+	if err != nil {
+		return nil, err
+	}
+	var out []string
+	fset := token.NewFileSet()
+	for _, e := range ents {
+		n := e.Name()
+		if e.IsDir() || !strings.HasSuffix(n, ".go") || strings.HasSuffix(n, "_test.go") || strings.HasPrefix(n, "verif_") || n == "vm_test_helper.go" {
+			continue
+		}
+		f, err := parser.ParseFile(fset, filepath.Join(dir, n), nil, 0)
+		if err != nil {
+			return nil, err
+		}
+		for _, d := range f.Decls {
+			gd, ok := d.(*ast.GenDecl)
+			if !ok || gd.Tok != token.VAR {
+				continue
+			}
+			for _, sp := range gd.Specs {
+				if vs, ok := sp.(*ast.ValueSpec); ok {
+					for _, id := range vs.Names {
+						if id.Name != "_" {
+							out = append(out, n+":"+id.Name)
+						}
+					}
+				}
+			}
+		}
+	}
+	sort.Strings(out)
+	return out, nil
 }
